@@ -122,12 +122,14 @@ class CircleBoundary(BoundaryDomain):
         )
         points = points[:, list(self.space.keys())].as_tensor
         norm = torch.linalg.norm(points - center, dim=1).reshape(-1, 1)
-        # torch.isclose(norm, radius), but not below the rounding error of a float32
-        # point: about 6e-8 times its largest coordinate, which exceeds the relative
-        # tolerance for balls that are small compared to their distance from the origin
+        # torch.isclose(norm, radius), but not below the rounding error of a point of
+        # this float type: about 6e-8 (float32) times its largest coordinate, which
+        # exceeds the relative tolerance for balls that are small compared to their
+        # distance from the origin
         radius = radius.reshape(-1, 1)
         largest = torch.amax(torch.abs(center), dim=1, keepdim=True) + torch.abs(radius)
-        tol = torch.maximum(1e-8 + 1e-5 * torch.abs(radius), 2.5e-7 * largest)
+        unit = 2.1 * torch.finfo(norm.dtype).eps
+        tol = torch.maximum(1e-8 + 1e-5 * torch.abs(radius), unit * largest)
         return (torch.abs(norm - radius) <= tol).reshape(-1, 1)
 
     def sample_random_uniform(
